@@ -4,7 +4,7 @@
    path; UpdateVolumes, DeltaUpdateVolumes, AdjustMaxVolumeCounts, UpdateEcShards,
    DeltaUpdateEcShards, GetOrCreateDataNode, UnRegisterDataNode exactly as written). *)
 From Coq Require Import String List ZArith NArith Bool.
-From SW Require Import model.TopoPlace model.TopoCount proof.TopoCountProofs.
+From SW Require Import model.TopoPlace model.TopoCount proof.TopoCountProofs proof.TopoCountReg.
 Import ListNotations.
 Local Open Scope Z_scope.
 
@@ -26,9 +26,10 @@ Print Assumptions c12_propagation.
    rack, data center and the cluster equal the recomputation from what is registered beneath
    them ([exact_b], the oracle the correspondence check evaluates on the implementation).
    With the three repairs of data_node.go / data_node_ec.go (incremental deletes, per-volume EC
-   counters, per-disk-type max delta) the faithful model violates it in ONE remaining way
-   (UpdateEcShards keys EC volumes by id only); that one is exhibited and the property is proved
-   for every history that avoids its decidable trigger. *)
+   counters, per-disk-type max delta) the faithful model violates the COUNTING clause in ONE
+   remaining way (finding 0: UpdateEcShards keys EC volumes by id only); that one is exhibited and
+   the clause is proved for every history that avoids its decidable trigger.  "Currently
+   registered" is given its meaning by the registration clause below (finding 1). *)
 
 (* Strongest true statement: no trigger along the run  ==>  exact after every event. *)
 Theorem c12_counts_exact_partial : forall ops orders,
@@ -55,63 +56,103 @@ Theorem c12_step_all_iff_some_order : forall st o s,
 Proof. exact step_all_spec. Qed.
 Print Assumptions c12_step_all_iff_some_order.
 
-(* ---- the remaining refutation of the full statement ---- *)
-Definition w_n1 : path := ["dc1"; "r1"; "n1:80"]%string.
-Definition w_join (maxs : list (string * Z)) : op := Join "dc1" "r1" "n1:80" maxs.
-Definition refutes (k : N) (ops : list op) : Prop :=
-  forallb wf_op ops = true /\ first_trigger [] init_state ops = Some k /\
-  all_exact (run [] init_state ops) (ref_run [] ops) = false.
+(* ---- "(and hence free slots)": NodeImpl.AvailableSpaceFor (TopoPlace.free_space, the quantity
+        volume growth reserves from, C10) of every disk, server, rack, data center and the cluster
+        equals the free slots of the recomputed counters, after every event of a trigger-free run ---- *)
+Theorem c12_free_slots_exact : forall ops orders,
+  forallb wf_op ops = true ->
+  first_trigger orders init_state ops = None ->
+  all2 free_exact_b (run orders init_state ops) (ref_run [] ops) = true.
+Proof. exact run_free_exact. Qed.
+Print Assumptions c12_free_slots_exact.
 
-(* k = 0: one EC volume id listed twice in a full EC heartbeat: both counted, one registered *)
-Theorem c12_counts_exact_refuted_ec_duplicate :
-  refutes 0 [w_join [(""%string, 10)];
-             FullEc w_n1 [mkE 1 "" 1; mkE 1 "" 2]].
-Proof. exact (conj eq_refl (conj eq_refl eq_refl)). Qed.
+Theorem c12_invariant_gives_free_slots : forall st r, Inv st r -> free_exact_b st r = true.
+Proof. exact inv_free_exact. Qed.
+Print Assumptions c12_invariant_gives_free_slots.
+
+(* ---- the registration clause: the counters are compared with what is registered, so the
+        property also needs the registered set to be the reported one.  For EVERY state and input,
+        what DataNode.UpdateVolumes leaves registered at (id, disk) ---- *)
+Theorem c12_update_volumes_registered : forall st n actual id d,
+  vreg (update_volumes st n actual) n id d =
+  existsb (hits id d) actual ||
+  (negb (existsb (hits id d)
+           (filter (fun v => negb (existsb (fun a => N.eqb (v_id a) (v_id v)) actual)) (node_volumes st n))) &&
+   vreg st n id d).
+Proof. exact update_volumes_vreg. Qed.
+Print Assumptions c12_update_volumes_registered.
+
+(* partial (finding 1 excluded, per event): along every run the counting theorem covers, every full
+   volume heartbeat that does not re-report a registered volume id on another disk leaves exactly
+   the reported (id, disk) set registered on the server *)
+Theorem c12_fullvol_registered_partial : forall ops orders,
+  forallb wf_op ops = true ->
+  first_trigger orders init_state ops = None ->
+  reg_run true orders init_state ops = true.
+Proof. exact (fun ops orders => run_full_vol_registered ops orders init_state [] init_inv). Qed.
+Print Assumptions c12_fullvol_registered_partial.
+
+Theorem c12_fullvol_registered_step : forall st r n actual, Inv st r -> In n (keys st) -> length n = 3%nat ->
+  trig_vol_moved st n actual = false ->
+  reg_vol_ok (update_volumes st n actual) n actual = true.
+Proof. exact full_vol_registered. Qed.
+Print Assumptions c12_fullvol_registered_step.
+
+(* refuted at full strength (k = 1): one volume re-reported on another disk type of the same server
+   stays registered AND counted on the old disk too; every counter still equals the recomputation
+   (first_trigger = None: the counting theorem applies), so only this clause sees it *)
+Theorem c12_fullvol_registered_refuted :
+  forallb wf_op w_vol_moved = true /\ first_trigger [] init_state w_vol_moved = None /\
+  reg_run false [] init_state w_vol_moved = false /\
+  reg_run true [] init_state w_vol_moved = true /\
+  (exists s, nth_error (run [] init_state w_vol_moved) 2 = Some s /\
+             vpairs (node_volumes s w_n1) = [(1%N, ""%string); (1%N, "ssd"%string)] /\
+             volumeCount (U s [] ""%string) = 1 /\ volumeCount (U s [] "ssd"%string) = 1).
+Proof. exact refuted_vol_moved. Qed.
+Print Assumptions c12_fullvol_registered_refuted.
+
+(* ---- the remaining refutation of the counting clause (k = 0) ---- *)
+(* one EC volume id listed twice in a full EC heartbeat: both counted, one registered *)
+Theorem c12_counts_exact_refuted_ec_duplicate : refutes 0 w_ec_dup.
+Proof. exact refuted_ec_duplicate. Qed.
 Print Assumptions c12_counts_exact_refuted_ec_duplicate.
 
 (* the same finding: an EC volume reported on another disk type than the one it is registered on *)
-Theorem c12_counts_exact_refuted_ec_moved :
-  refutes 0 [w_join [(""%string, 10); ("ssd"%string, 4)];
-             FullEc w_n1 [mkE 1 "" 1];
-             FullEc w_n1 [mkE 1 "ssd" 3]].
-Proof. exact (conj eq_refl (conj eq_refl eq_refl)). Qed.
+Theorem c12_counts_exact_refuted_ec_moved : refutes 0 w_ec_moved.
+Proof. exact refuted_ec_moved. Qed.
 Print Assumptions c12_counts_exact_refuted_ec_moved.
 
+(* the correspondence check files a case under finding 0 only inside the NARROWED per-event
+   trigger (trig_ec_narrow); it lies inside the trigger of the counting theorem, and both
+   witnesses are inside it *)
+Theorem c12_narrow_trigger_inside : forall st n actual,
+  trig_ec_irregular st n actual = false -> trig_ec_narrow st n actual = false.
+Proof. exact narrow_in_wide. Qed.
+Print Assumptions c12_narrow_trigger_inside.
+
 (* the witnesses of the four repaired defects are now trigger-free and exact *)
-Definition repaired (ops : list op) : Prop :=
-  forallb wf_op ops = true /\ first_trigger [] init_state ops = None /\
-  all_exact (run [] init_state ops) (ref_run [] ops) = true.
 Example c12_repaired_witnesses :
   repaired [w_join [(""%string, 10)]; IncVol w_n1 [] [(7%N, ""%string)]] /\
   repaired [w_join [(""%string, 10)]; FullEc w_n1 [mkE 1 "" 1; mkE 2 "" 1]; FullEc w_n1 [mkE 1 "" 3; mkE 2 "" 3]] /\
   repaired [w_join [(""%string, 10); ("ssd"%string, 5)]; AdjustMax w_n1 [(""%string, 12); ("ssd"%string, 8)]] /\
   repaired [w_join [(""%string, 10)]; FullVol w_n1 [mkV 1 "" true true]; IncVol w_n1 [] [(1%N, ""%string)]].
-Proof. repeat split; vm_compute; reflexivity. Qed.
+Proof. exact repaired_witnesses. Qed.
+Print Assumptions c12_repaired_witnesses.
 
-(* ---- non-vacuity: a trigger-free history with two servers, two disk types, volumes (one remote),
-        EC shards (two EC volumes changing in one full heartbeat), max counts of two disk types
-        changing at once, a stale and a remote incremental delete, and an unregistration; it is well formed, meets no trigger,
-        registers something, and (by the partial theorem) is exact after every event ---- *)
-Definition ex_n2 : path := ["dc1"; "r2"; "n2:80"]%string.
-Definition ex_history : list op :=
-  [ w_join [(""%string, 5); ("ssd"%string, 3)];
-    FullVol w_n1 [mkV 1 "" false false; mkV 2 "ssd" true true];
-    IncVol w_n1 [(3%N, ""%string)] [(1%N, ""%string); (9%N, ""%string)];
-    FullEc w_n1 [mkE 10 "" 3; mkE 11 "ssd" 1];
-    IncEc w_n1 [mkE 10 "" 4] [mkE 10 "" 1];
-    FullEc w_n1 [mkE 10 "" 14; mkE 11 "ssd" 3];
-    AdjustMax w_n1 [(""%string, 7); ("ssd"%string, 6)];
-    Join "dc1" "r2" "n2:80" [(""%string, 4)];
-    FullVol ex_n2 [mkV 3 "" false false];
-    Unregister w_n1 ].
+(* ---- non-vacuity: ex_history (proof/TopoCountReg.v: two servers, two disk types, a remote volume,
+        a volume created by growth, two EC volumes changing in one full heartbeat, two max counts
+        changing at once, a stale and a remote incremental delete, an unregistration) is well formed,
+        meets no trigger, is exact, has exact free slots and satisfies the registration clause
+        WITHOUT the excuse of finding 1 ---- *)
 Example c12_example :
   forallb wf_op ex_history = true /\ first_trigger [] init_state ex_history = None /\
   all_exact (run [] init_state ex_history) (ref_run [] ex_history) = true /\
+  all2 free_exact_b (run [] init_state ex_history) (ref_run [] ex_history) = true /\
+  reg_run false [] init_state ex_history = true /\
   (exists s, nth_error (run [] init_state ex_history) 6 = Some s /\
              volumeCount (U s [] ""%string) = 1 /\ remoteVolumeCount (U s [] "ssd"%string) = 1 /\
              ecShardCount (U s ["dc1"%string] ""%string) = 3 /\ ecShardCount (U s ["dc1"%string] "ssd"%string) = 2 /\
-             maxVolumeCount (U s w_n1 ""%string) = 7 /\ maxVolumeCount (U s w_n1 "ssd"%string) = 6).
-Proof.
-  split; [vm_compute; reflexivity|]. split; [vm_compute; reflexivity|]. split; [vm_compute; reflexivity|].
-  eexists. split; [vm_compute; reflexivity|]. repeat split; vm_compute; reflexivity.
-Qed.
+             maxVolumeCount (U s w_n1 ""%string) = 7 /\ maxVolumeCount (U s w_n1 "ssd"%string) = 6 /\
+             free_space (U s w_n1 ""%string) = 5 /\ free_space (U s w_n1 "ssd"%string) = 5).
+Proof. exact example_history. Qed.
+Print Assumptions c12_example.
